@@ -573,6 +573,12 @@ def c17(chk, thorough):
     chk.assumptions = ['real arithmetic', 'distinct parameters do not alias', 'thread counts >= 1']
     prog = load_program(chk, ['clustering.c', 'metricspace.c', 'matrix.c', 'vector.c', 'tensor.c', 'memwrapper.c', 'numeric.c'])
     kmeanscheck.run(chk, prog)
+    from . import guards
+    # the cell-form extractor reads through data-dependent filters: no labelling / centroid / distance routine may carry an absolute-tolerance filter
+    guards.kernel_tolerances(chk, prog, {'clustering.c': ['getLabelsWorker', 'getLabels_', 'getLabels', 'getCentroids', 'KMeans', 'shouldStop', 'MDC', 'MDCWorker'],
+                                         'metricspace.c': ['EuclideanDistance', 'EuclideanWorker', 'MatrixEuclideanDistance', 'SquaredEuclideanDistance']},
+                             table=guards.KMEANS_TOLERANCE_TABLE, rule='SV.tolerance',
+                             what='k-means labelling, centroid update, distance and MDC ranking routines')
     slices.run(chk, prog, rmax=40 if thorough else 12, nmax=24 if thorough else 8, dom=4 if thorough else 3)
     chk.floor('KM.nearest', 4)
     chk.floor('KM.centroid-mean', 6)
